@@ -137,6 +137,23 @@ def run(ctx):
             if canon(bits(y)) != canon(mo[0]):
                 disagreements.append({"what": f"apply_bounds({m}) x={x!r} box=({lo!r},{hi!r}): implementation {y!r} ({hexb(y)}), model {frombits(mo[0])!r} (0x{mo[0]:016X})",
                                       "method": m, "x": hexb(x), "lo": hexb(lo), "hi": hexb(hi)})
+    # the exact-arithmetic model (Model/BoundsZ.v) against the real function on integer data, where double arithmetic is exact
+    zcases = []
+    for _ in range(max(60, n // 10)):
+        lo_i = rng.randint(-40, 40)
+        hi_i = lo_i + rng.randint(1, 30)
+        zcases.append((rng.choice(METHODS), rng.randint(lo_i - 200, hi_i + 200), lo_i, hi_i))
+    zimpl = impl([(m, float(x), float(lo_i), float(hi_i), "int") for m, x, lo_i, hi_i in zcases])
+    zhdr = "From Coq Require Import ZArith List. Import ListNotations. From HV Require Import BoundsZ.\nOpen Scope Z_scope.\n"
+    zname = {"clip": "clipZ", "reflect": "reflectZ", "toroidal": "toroidalZ"}
+    zmodel, zerr = run_cases("C17-exact", zhdr, [f"[{zname[m]} ({x}) ({lo_i}) ({hi_i})]" for m, x, lo_i, hi_i in zcases])
+    if zmodel is None:
+        disagreements.append({"what": "exact-arithmetic model failed to evaluate: " + zerr[-300:]})
+    else:
+        for (m, x, lo_i, hi_i), y, mo in zip(zcases, zimpl, zmodel):
+            if float(mo[0]) != y:
+                disagreements.append({"what": f"apply_bounds({m}) on integers x={x} box=({lo_i},{hi_i}): implementation {y!r}, exact-arithmetic model {mo[0]}",
+                                      "method": m, "x": hexb(float(x)), "lo": hexb(float(lo_i)), "hi": hexb(float(hi_i))})
     moved = {(m, kind) for (m, x, lo, hi, kind), y in zip(cases, ys) if bits(x) != bits(y)}
     distinct = len({(m, bits(x), bits(lo), bits(hi)) for (m, x, lo, hi, kind), y in zip(cases, ys) if bits(x) != bits(y)})
     dist = {}
@@ -162,8 +179,8 @@ MANIFEST = {
     "text": "Theorems over ALL binary64 values (Flocq) about the definitions regenerated from apply_bounds on every run: every method returns a point of the box "
             "(or NaN, excluded on the property's domain), in-box points are returned bit for bit, clip goes to the nearest face; the pinned tree is refuted by "
             "witnesses computed in Coq. Tie: translator + GenEquiv lemmas, plus a bit-exact differential run of the real apply_bounds against the model under vm_compute.",
-    "note": "Partial: the congruence of reflect/toroidal modulo the range is proved only over Q for what the method prescribes; for doubles it is measured by the monitor within "
-            "an ulp envelope. Domain: finite x and box with hi-lo and x-lo not overflowing. Trusted: Coq kernel, Flocq + stdlib real axioms, the translator, numpy mod/floor_divide "
+    "note": "Partial: the congruence of reflect/toroidal modulo the range is proved in exact arithmetic for what the method prescribes (Model/BoundsZ.v, compared with the real "
+            "function on integer data where doubles are exact); for doubles in general it is measured by the monitor within an ulp envelope. Domain: finite x and box with hi-lo and x-lo not overflowing. Trusted: Coq kernel, Flocq + stdlib real axioms, the translator, numpy mod/floor_divide "
             "semantics as transcribed in Base/F64.v (validated bit for bit on every run).",
     "technique": "Coq proof on Flocq binary64 + regenerated model (translator/GenEquiv) + bit-exact vm_compute correspondence",
 }
